@@ -18,7 +18,7 @@ NATIVE_COVERS = {"sorted_division_locations": ["sorted_division_locations"], "so
 
 def native(tier, seed):
     from vf import sdl_native
-    return [sdl_native.sweep(tier, seed), sdl_native.pq_sweep(tier, seed)]
+    return [sdl_native.sweep(tier, seed), sdl_native.pq_sweep(tier, seed), sdl_native.percentile_grid_sweep(tier, seed)]
 
 
 def replay_native(native):
